@@ -25,7 +25,8 @@ CHECKS = {
              "interpretation of every validating constructor/setter over the partition {NaN, +-inf, 0, negative, "
              "out of range} with delegated constructors followed; (X6) every loop has a counter/container/stream "
              "bound or an audited termination argument; (X2b) strchr membership excludes NUL; (X8) no "
-             "fast-math/no-exceptions flags. These hold for every input because they hold for every path.",
+             "fast-math/no-exceptions flags; (X7) interval analysis of fixed-buffer and alphabet indexes in the five "
+             "codecs. These hold for every input because they hold for every path.",
         note="NOT decided: general memory safety, signed overflow, propagation of NaN to the outputs, std-library "
              "logic errors other than X2b. Assumes A-ELLIPTIC-ARGS, A-SINGLETON-NOTHROW; bad_alloc is outside the "
              "contract. One known finding (Utility::readarray partial write).",
@@ -41,10 +42,11 @@ CHECKS = {
         ref="3.4, 4 (C04)"),
     'C05': dict(
         text="Decides the error clauses for MGRS: outputs committed last on every path of Forward/Reverse/Decode "
-             "(X3), only GeographicErr (X1), NaN never raises (X4), and the alphabet membership helper rejects "
-             "NUL (X2b).",
+             "(X3), only GeographicErr (X1), NaN never raises (X4), the alphabet membership helper rejects "
+             "NUL (X2b), the MGRS alphabets are injective and sized to their index ranges (T3), and an interval "
+             "analysis (X7) proves every write into the fixed buffer mgrs1 and every decided alphabet index in range.",
         note="Digit truncation, band/row consistency and the accept/reject set of strings are NOT decided.",
-        technique="CFG typestate (commit-last) + Kleene NaN evaluation + path-fact check on strchr",
+        technique="CFG typestate (commit-last) + Kleene NaN evaluation + interval analysis of buffer/alphabet indexes",
         ref="3.4, 4 (C05)"),
     'C10': dict(
         text="Decides the error clauses for the text parsers (DMS, Utility::val/fract/nummatch/ParseLine/date, "
@@ -57,9 +59,14 @@ CHECKS = {
         ref="3.4, 4 (C10)"),
     'C18': dict(
         text="Decides the error clauses for Geohash/GARS/Georef/OSGB: throw type (X1), outputs committed last (X3), "
-             "NaN never raises (X4), NUL rejected by the alphabet lookup (X2b).",
-        note="Containing-cell arithmetic, prefix property and full consumption of the input are NOT decided.",
-        technique="CFG typestate (commit-last) + Kleene NaN evaluation + path-fact check on strchr",
+             "NaN never raises (X4), NUL rejected by the alphabet lookup (X2b), alphabets injective and sized to "
+             "their consumers (T3), and (X7) an interval analysis over the encoders - ranges established by the throwing "
+             "guards, clamps and the documented range of AngNormalize - proves every write into the fixed char buffers "
+             "and every decided alphabet index inside its array; an index whose attained range leaves the alphabet is "
+             "a violation (this found Georef::Forward(lat, 180) emitting the terminating NUL).",
+        note="Containing-cell arithmetic, prefix property and full consumption of the input are NOT decided. X7 leaves "
+             "indexes that need relational reasoning undecided (listed in the evidence), never guessed.",
+        technique="CFG typestate (commit-last) + Kleene NaN evaluation + interval analysis of buffer/alphabet indexes",
         ref="3.4, 4 (C18)"),
     'C12': dict(
         text="Decides the mask/capability discipline for every path, mask and capability set at once: (M1) the six mask "
